@@ -27,7 +27,7 @@ def run(rep, tier, seed, model_ok=True, effort=1):
     from . import impl
     from bumpver import version
     r = common.rng(seed, "c08")
-    nhist = (14 if tier == "quick" else 500) * effort
+    nhist = (15 if tier == "quick" else 500) * effort
     rep.rule = ("histories of 1..12 invocations in real git repositories over generated projects: committing updates with flag sets and non-decreasing dates, "
                 "failing invocations, --no-commit and --no-tag-commit runs, branch switches and unrelated commits; after every successful update: config version "
                 "= announced version = every configured occurrence = `show`; with tagging the newest tag; strictly greater than before; exactly one new commit "
@@ -48,6 +48,22 @@ def run(rep, tier, seed, model_ok=True, effort=1):
             fs.lines = [([rwgen.Seg("occ", 0)], "\n")]
             spec["files"] = [fs]
             scripted, same_day = ["update", "update"], True
+        if h == 4:
+            # corpus history: one file reached through two entries that are NOT adjacent (a glob, then another file, then the file by name with an
+            # extra pattern): both entries' patterns follow every update
+            spec = rwgen.gen_project(common.rng(4, "c08-corpus"), impl, legacy=False, max_files=1, allow_mixed=False)
+            spec["vp"], spec["flags"], spec["old"], spec["date"], spec["fmt"] = "vMAJOR.MINOR.PATCH", ["--patch"], "v1.4.0", dt.date(2024, 3, 1), "bumpver.toml"
+            T_, O_ = (lambda t: rwgen.Seg("text", t)), (lambda i: rwgen.Seg("occ", i))
+            f_init = rwgen.FileSpec("src/pkg/__init__.py", ['__version__ = "{version}"', '__release__ = "{version}"'])
+            f_init.lines = [([O_(0)], "\n"), ([O_(1)], "\n")]
+            f_other = rwgen.FileSpec("src/pkg/other.py", ['__version__ = "{version}"'])
+            f_other.lines = [([T_("# module")], "\n"), ([O_(0)], "\n")]
+            f_readme = rwgen.FileSpec("README.md", ["demo {version}"])
+            f_readme.lines = [([T_("get "), O_(0), T_(" today")], "\n")]
+            spec["files"] = [f_init, f_other, f_readme]
+            spec["raw_entries"] = [("src/pkg/*.py", ['__version__ = "{version}"']), ("README.md", ["demo {version}"]), ("src/pkg/__init__.py", ['__release__ = "{version}"'])]
+            spec["cfg_prefix"] = ""
+            scripted = ["update", "no-tag", "update"]
         if h == 0:
             # corpus history: the config gets ahead of the newest tag across a 9 -> 10 digit boundary
             spec = rwgen.gen_project(common.rng(1, "c08-corpus"), impl, legacy=False, max_files=2, allow_mixed=False)
